@@ -3,7 +3,7 @@
 # confirm a sub-agent's seeded change in its scratch worktree /tmp/wt/<prop> (demo fails with the patch, passes with it
 # reversed, rebuilt in between), keep it as seeded/S-<prop>-<n>/ and run the given checks against it.
 P=$1; N=$2; FEAT=$3; shift 3
-W=/tmp/wt/$P; ID=S-$P-$N
+W=${SEED_WT:-/tmp/wt}/$P; ID=S-$P-$N
 cd $W || exit 2
 export CARGO_TARGET_DIR=$W/target CARGO_NET_OFFLINE=true
 F=""; [ "$FEAT" != "-" ] && F="--features $FEAT"
